@@ -213,7 +213,10 @@ class Recorder:
             if not self.w.busy():
                 quiet_rounds += 1
                 if quiet_rounds >= 2:
-                    self.freed = [set(), set()]
+                    # on path-id providers the id of a freed name is reused by whatever is created there later and tombstoned
+                    # entries linger: reuse stays excluded for the whole run there (measured weak spot, known finding)
+                    if not (self.w.provs[0].oid_is_path or self.w.provs[1].oid_is_path):
+                        self.freed = [set(), set()]
                     return True
             else:
                 quiet_rounds = 0
